@@ -19,7 +19,7 @@ func init() {
 	Register(&Rule{
 		ID:    "R-INDEX",
 		Doc:   "every slice index whose value derives from the input (thrift field id, proto field number, bytes.IndexByte result) is dominated by tests 0 <= i and i < len(x) (interval reasoning over the dominating branch edges); every slice expression b[k:i] with such an i has i >= k proven",
-		Props: []string{"C06", "C07", "C08", "C19"},
+		Props: []string{"C06", "C07", "C08", "C19", "C13", "C04"},
 		Min:   map[string]int{"C06": 2, "C07": 1, "C08": 1, "C19": 1},
 		Run:   runIndex,
 	})
@@ -73,7 +73,9 @@ func runIndex(c *core.Ctx) []core.Obligation {
 		case strings.HasPrefix(name, "proto."):
 			props = []string{"C07"}
 		case strings.HasPrefix(name, "thrift."):
-			props = []string{"C08"}
+			// a panic on an id or count a conformant peer may send is also a conformant encoding
+			// that is not accepted
+			props = []string{"C08", "C13", "C04"}
 		}
 		kn := map[string]int{}
 		nk := func(kind string) string {
